@@ -1,0 +1,20 @@
+//go:build verif
+
+// Verification hooks for property C07 (formula references across structural
+// edits): thin exported wrappers around the unexported formula rewriter of
+// adjust.go. Compiled only with `-tags verif`; adds code and changes none.
+
+package excelize
+
+// VerifC07AdjustFormulaRef exposes (*File).adjustFormulaRef. byRows selects
+// the adjust direction (true = rows, false = columns).
+func VerifC07AdjustFormulaRef(f *File, sheet, sheetN, formula string, keepRelative, byRows bool, num, offset int) (string, error) {
+	dir := columns
+	if byRows {
+		dir = rows
+	}
+	return f.adjustFormulaRef(sheet, sheetN, formula, keepRelative, dir, num, offset)
+}
+
+// VerifC07EscapeSheetName exposes escapeSheetName.
+func VerifC07EscapeSheetName(name string) string { return escapeSheetName(name) }
